@@ -1,6 +1,8 @@
-import PhyVerif.Driver.Json
+import PhyVerif.Driver.Rat
 import PhyVerif.Model.C06
 import PhyVerif.Spec.C06
+import PhyVerif.Model.C06b
+import PhyVerif.Spec.C06b
 namespace PhyVerif.Driver
 open Lean PhyVerif PhyVerif.C06
 
@@ -33,6 +35,19 @@ def runC06 (op : String) (j : Json) : R Json := do
         let nt ← getNat j "n_templates"
         pure (getTemplateFeatures (0 : Int) (-1) sf nloc st nt ids)
     pure (Json.mkObj [("model", jOpt (jList jInts) res)])
+  | "pca" =>
+    -- the PCA route of get_features: the store, the request, and the components the real code computed
+    let ids ← getNats j "sw_ids"; let chs ← getIntss j "sw_channels"; let wv ← getRat3 j "sw_waveforms"
+    let nsw ← getNat j "nsw"; let sids ← getNats j "spike_ids"; let chans ← getNats j "chans"
+    let pcs ← getRat3 j "pcs"
+    let sw : WStore := ⟨ids, chs, wv⟩
+    let spec : List (List (List Rat)) := sids.map fun q =>
+      (List.range chans.length).map fun jj => (List.range 3).map fun k =>
+        if ids.contains q then projection sw nsw pcs q (chans.getD jj 0) jj k else 0
+    pure (Json.mkObj [
+      ("model", jOpt (jList jRatMat) (getFeaturesPca (fun _ => pcs) sw nsw sids chans)),
+      ("spec", jList jRatMat spec),
+      ("block", jList jRatMat (pcaBlock sw nsw sids chans))])
   | _ => .error s!"C06: unknown op {op}"
 
 end PhyVerif.Driver
